@@ -996,4 +996,40 @@ def obsData (o : Obs) : Except Err (Nat × Arr) := o.map fun (x, v) => (x, v.1)
 def dumpData (d : List (Nat × Except Err Val)) : List (Nat × Except Err Arr) :=
   d.map fun (x, r) => (x, r.map (·.1))
 
+/-! ## A decidable side condition for `shaped` (run by the driver: `agree=`) -/
+
+/-- both results are the same kind of object (same tag), or the same exception -/
+def sameTagB : Except Err Val → Except Err Val → Bool
+  | .ok v, .ok w => v.2 == w.2
+  | .error e, .error f => e == f
+  | _, _ => false
+
+/-- at every `shaped` node the operand is the same kind of object under both policies -/
+def shapedAgreeB (P Q : Policy) (gs : Grids) (lo ln : Nat → Except Err Val) : Expr → Bool
+  | .var _ | .lit _ | .scal _ _ | .field _ _ => true
+  | .bin _ l r => shapedAgreeB P Q gs lo ln l && shapedAgreeB P Q gs lo ln r
+  | .un _ e | .red _ _ e | .idx _ e | .reshape _ e | .ravel e | .copy e | .pickle e => shapedAgreeB P Q gs lo ln e
+  | .mask e m => shapedAgreeB P Q gs lo ln e && shapedAgreeB P Q gs lo ln m
+  | .shaped e => shapedAgreeB P Q gs lo ln e && sameTagB (eval P gs lo e) (eval Q gs ln e)
+  | .app1 _ e => shapedAgreeB P Q gs lo ln e
+  | .app2 _ a b => shapedAgreeB P Q gs lo ln a && shapedAgreeB P Q gs lo ln b
+  | .app3 _ a b c => shapedAgreeB P Q gs lo ln a && shapedAgreeB P Q gs lo ln b && shapedAgreeB P Q gs lo ln c
+
+def stmtAgreeB (gs : Grids) (so : OState) (sn : NState) : Stmt → Bool
+  | .assign _ e => shapedAgreeB oldPolicy newPolicy gs so.look sn.look e
+  | .alias _ _ => true
+  | .update _ _ args => args.all fun e => shapedAgreeB oldPolicy newPolicy gs so.look sn.look e
+
+/-- the check along the run of both routes (it stops where either route raises) -/
+def progAgreeB (gs : Grids) : OState → NState → List Stmt → Bool
+  | _, _, [] => true
+  | so, sn, st :: rest =>
+    stmtAgreeB gs so sn st &&
+      match stepO gs so st, stepN gs sn st with
+      | .ok so', .ok sn' => progAgreeB gs so' sn' rest
+      | _, _ => true
+
+/-- `agree? gs p`: no `shaped` of the program is applied to an object the two routes tag differently -/
+def agree? (gs : Grids) (p : List Stmt) : Bool := progAgreeB gs {} {} p
+
 end HcipyVerif.FieldProg
